@@ -207,4 +207,10 @@ def rule_d(ctx):
     c03c(ctx, rule='C03.c')
 
 
-RULES = [('C10.a', rule_a), ('C10.b', rule_b), ('C10.c', rule_c)]
+def rule_order(ctx):
+    # per-stream FIFO on the wire: a terminal/control frame must not overtake fragments of its own stream
+    from .c05 import rule_a as c05a
+    c05a(ctx)
+
+
+RULES = [('C10.a', rule_a), ('C10.b', rule_b), ('C10.c', rule_c), ('C05.a', rule_order)]
